@@ -11,14 +11,21 @@
        value without these six characters is not hostile);
      - GetDefaultHandler is a lookup in the default table that falls back to BaseHandler, whose
        body is `return false` (shape recognised by the translator, which fails otherwise).
-   Missing: the composition of these blocks by the handlers' own control flow (split on space /
-   comma / slash, `in`, recursiveCheck, the 14 hand-written loops).  That part is covered by the
+   One composing block is proved as well: recursiveCheck (modelled in Model/RecCheck.v, tied to the
+   code on results and call counts, proved correct and quadratic for C14) accepts a value only if
+   every component lies in a group that a sub-handler accepted, so with sub-handlers that accept only
+   values free of the six characters the whole value is free of them and not hostile
+   (C18_recursive_check_composes).
+   Missing: the composition of the blocks by the handlers' own control flow apart from that (split
+   on space / comma / slash, `in`, the 14 hand-written loops).  That part is covered by the
    bounded-exhaustive implementation-side search the property text itself describes: for all
    table entries, values from the handler's own vocabulary with hostile fragments inserted,
    appended, prepended and glued at every position. *)
 From Coq Require Import List NArith Bool String.
 Import ListNotations.
 From BM Require Import Bytes Regex RegexSound RegexSem CssInert GenRegex GenCss C18Inst C18Inert0 C18Inert1 C18Inert2 C18Inert3 C18Whole C18Strip C18Kw C18Danger.
+From BM Require Utf8 Strings RecCheck RecCheckSafe Utf8Props.
+From Coq Require Import Lia.
 Open Scope N_scope.
 
 Lemma hostile_parts_four : hostile_parts = [nth 0 hostile_parts Emp; nth 1 hostile_parts Emp; nth 2 hostile_parts Emp; nth 3 hostile_parts Emp].
@@ -60,11 +67,36 @@ Proof. exact hostile_needs_danger. Qed.
 Theorem C18_no_danger_not_hostile : forall s, Forall (fun c => cs_mem c danger_cset = false) s -> matches hostile s = false.
 Proof. exact no_danger_not_hostile. Qed.
 
+(* the recursiveCheck block composes (Model/RecCheck.v is tied to css.recursiveCheck on results and call counts, C14): if
+   every sub-handler accepts only values free of the six characters, a value whose space-separated components recursiveCheck
+   accepts is free of them, hence not hostile *)
+Theorem C18_recursive_check_composes : forall (value : list Bytes.bytes) (funcs : list (Bytes.bytes -> bool)),
+  (forall j, In j funcs -> forall s, j s = true -> Forall (fun c => cs_mem c danger_cset = false) s) ->
+  RecCheck.recursive_check value funcs = true ->
+  Forall (fun c => cs_mem c danger_cset = false) (Strings.join value [32]) /\
+  matches hostile (Utf8.runes (Strings.join value [32])) = false.
+Proof.
+  intros value funcs Hsub Hacc.
+  assert (Hb : Forall (fun c => cs_mem c danger_cset = false) (Strings.join value [32])).
+  { assert (Hc : RecCheckSafe.clean (fun c => negb (cs_mem c danger_cset)) (Strings.join value [32])).
+    { apply RecCheckSafe.recursive_check_joined_clean with (funcs := funcs); [| repeat constructor | exact Hacc].
+      intros j Hj s Hs. specialize (Hsub j Hj s Hs). unfold RecCheckSafe.clean. eapply Forall_impl; [|exact Hsub].
+      intros c Hc. cbv beta in Hc. rewrite Hc. reflexivity. }
+    unfold RecCheckSafe.clean in Hc. eapply Forall_impl; [|exact Hc]. intros c H. cbv beta in H. apply negb_true_iff in H. exact H. }
+  split; [exact Hb|]. apply no_danger_not_hostile. apply Forall_forall. intros r Hr.
+  destruct (cs_mem r danger_cset) eqn:E; [|reflexivity]. exfalso.
+  assert (Hsmall : r < 128).
+  { unfold danger_cset, cs_mem in E. cbn [existsb fst snd] in E.
+    repeat (apply orb_true_iff in E as [E|E]); try discriminate; apply andb_true_iff in E as [E1 E2]; apply N.leb_le in E1, E2; lia. }
+  pose proof (Utf8Props.runes_small_in _ r Hr Hsmall) as Hin. rewrite Forall_forall in Hb. rewrite (Hb r Hin) in E. discriminate.
+Qed.
+
 Theorem C18_unknown_property : get_default_handler_is_table_lookup_else_base = true /\ base_handler_is_return_false = true.
 Proof. split; reflexivity. Qed.
 
 Print Assumptions C18_regexps_inert.
 Print Assumptions C18_hostile_needs_danger.
+Print Assumptions C18_recursive_check_composes.
 Print Assumptions C18_regexps_whole_value.
 Print Assumptions C18_strippers_anchored.
 Print Assumptions C18_keywords_inert.
